@@ -72,6 +72,21 @@ def generate(tier, rng):
                 continue
             count += 1
             yield {"ops": opens + [list(o) for o in seq], "nproj": 2}
+    # remove / re-create with document objects that outlive the job: the same handle, a shallow copy made after
+    # the document was first used (shares the document object), a copy made before
+    sp = {"a": 0}
+    for variant in range(6):
+        ops = [["open", "h1", 0, sp]]
+        if variant in (3, 4):
+            ops.append(["copy", "h1", "h2"])
+        ops += [["dset", "h1", "x", 1], ["put", "h1", "f.txt", "A"]]
+        if variant in (1, 2, 5):
+            ops.append(["copy", "h1", "h2"])
+        ops.append(["remove", "h1"])
+        w = "h1" if variant in (0, 5) else "h2"
+        ops += [["dset", w, "y", 2]] if variant != 2 else [["init", "h2"], ["dset", "h2", "y", 2]]
+        ops += [["dset", "h1", "z", 3], ["spset", w, "b", 1]]
+        yield {"ops": ops, "nproj": 2}
     for i in range(n_random):
         yield {"ops": W.gen_ops(rng, length, rich=(i % 3 == 0), allow_plant=(i % 4 == 0)), "nproj": 2}
 
